@@ -153,7 +153,7 @@ Proof.
       * right. intros t Ht. apply negb_true_iff. apply E. exact Ht.
 Qed.
 
-(* Witness 4: strict executor, one sender with one send.  The receiver parks on the empty
+(* Witness 4 (the code before fdb5498e919): strict executor, one sender with one send.  The receiver parks on the empty
    channel; the (finished) sender calls close_this_sender -- what Sink::poll_close does --
    which drops the weak count without waking the receiver: it stays parked although a poll
    would now return None. *)
@@ -162,13 +162,13 @@ Definition w4_trace : list label := [Poll 0; PollRx; PollRx; CloseSender 0].
 
 Lemma no_rx_strand_refuted :
   exists s, single_progs w4_progs = true /\
-            reachable strict (init (Some 1) w4_progs) w4_trace s /\ RxStranded s.
+            reachable_old strict (init (Some 1) w4_progs) w4_trace s /\ RxStranded s.
 Proof.
-  destruct (run_enabled strict (init (Some 1) w4_progs) w4_trace) as [s|] eqn:E;
+  destruct (run_enabled_old strict (init (Some 1) w4_progs) w4_trace) as [s|] eqn:E;
     [|vm_compute in E; discriminate].
-  exists s. split; [reflexivity|]. split; [apply run_enabled_reachable; exact E|].
+  exists s. split; [reflexivity|]. split; [apply run_enabled_old_reachable; exact E|].
   apply rx_stranded_b_iff.
-  assert (H : option_map rx_stranded_b (run_enabled strict (init (Some 1) w4_progs) w4_trace) = Some true)
+  assert (H : option_map rx_stranded_b (run_enabled_old strict (init (Some 1) w4_progs) w4_trace) = Some true)
     by (vm_compute; reflexivity).
   rewrite E in H. cbn in H. inversion H. reflexivity.
 Qed.
